@@ -1280,7 +1280,7 @@ class World:
             oc = self.impl(lambda: o.length())
             legit = self._legit_seg_lengths(rec, *DEFAULT_TOL)
             self._judge_len(idx, q, oc, legit, tolerant, self._seg_atol(rec) if tolerant else 0.0)
-            if oc[0] != "i":
+            if True:    # also after an interrupt: part of the work may have been done and cached
                 self._note_tol(rec, *DEFAULT_TOL)
         elif q == "length_tol":
             e, m = float(op["e"]), int(op["m"])
@@ -1289,7 +1289,7 @@ class World:
             oc = self.impl(lambda: o.length(error=e, min_depth=m))
             legit = self._legit_seg_lengths(rec, e, m)
             self._judge_len(idx, q, oc, legit, tolerant, self._seg_atol(rec) if tolerant else 0.0)
-            if oc[0] != "i":
+            if True:    # also after an interrupt: part of the work may have been done and cached
                 self._note_tol(rec, e, m)
             if (e, m) != DEFAULT_TOL:
                 self.probe("nondefault_tolerance_query")
@@ -1309,7 +1309,7 @@ class World:
             if (t0, t1) == (0, 1):
                 legit = self._legit_seg_lengths(rec, *DEFAULT_TOL)
                 self._judge_len(idx, q, oc, legit, tolerant, self._seg_atol(rec) if tolerant else 0.0)
-                if oc[0] != "i":
+                if True:    # also after an interrupt: part of the work may have been done and cached
                     self._note_tol(rec, *DEFAULT_TOL)
             else:
                 self.compare(idx, q, oc, tw, tolerant, atol=self._seg_atol(rec) if tolerant else 0.0)
@@ -1352,7 +1352,7 @@ class World:
                 self.probe("inconclusive_boundary_query_on_rounding_tainted_path")
             else:
                 self.compare(idx, q, oc, tw, tolerant, rtol=1e-7, atol=1e-9)
-            if oc[0] != "i":
+            if True:    # also after an interrupt: part of the work may have been done and cached
                 self._note_tol(rec, *DEFAULT_TOL)
         elif q == "repr":
             oc = outcome(lambda: repr(o))
@@ -1470,7 +1470,7 @@ class World:
         if q == "length":
             oc = self.impl(lambda: p.length())
             self._judge_path_len(idx, q, pr, oc, *DEFAULT_TOL, tolerant)
-            if oc[0] != "i":
+            if True:    # also after an interrupt: part of the work may have been done and cached
                 self._mark_path_tols(pr, *DEFAULT_TOL)
             warmed = True
         elif q == "length_tol":
@@ -1479,7 +1479,7 @@ class World:
                 return "skipped"
             oc = self.impl(lambda: p.length(error=e, min_depth=m))
             self._judge_path_len(idx, q, pr, oc, e, m, tolerant)
-            if oc[0] != "i":
+            if True:    # also after an interrupt: part of the work may have been done and cached
                 self._mark_path_tols(pr, e, m)
             if (e, m) != DEFAULT_TOL:
                 self.probe("nondefault_tolerance_query")
@@ -1506,7 +1506,7 @@ class World:
                     self.probe("inconclusive_boundary_query_on_rounding_tainted_path")
                 else:
                     self.compare(idx, q, oc, tw, tolerant, atol=self._scale_atol(pr) if tolerant else 0.0)
-            if oc[0] != "i":
+            if True:    # also after an interrupt: part of the work may have been done and cached
                 self._mark_path_tols(pr, *DEFAULT_TOL)
             warmed = True
         elif q == "point":
@@ -1517,7 +1517,7 @@ class World:
                 self.probe("inconclusive_boundary_query_on_rounding_tainted_path")
             else:
                 self.compare(idx, q, oc, tw, tolerant, atol=self._scale_atol(pr) if tolerant else 0.0)
-            if oc[0] != "i":
+            if True:    # also after an interrupt: part of the work may have been done and cached
                 # (marking is a superset: any query that may have asked segments for their default
                 #  length makes the default-tolerance value a legitimate cached answer later)
                 self._mark_path_tols(pr, *DEFAULT_TOL)
@@ -1541,7 +1541,7 @@ class World:
                     self.compare(idx, q, oc, tw, True, atol=1e-9)
             else:
                 self.compare(idx, q, oc, tw, tolerant)
-            if oc[0] != "i":
+            if True:    # also after an interrupt: part of the work may have been done and cached
                 # (marking is a superset: any query that may have asked segments for their default
                 #  length makes the default-tolerance value a legitimate cached answer later)
                 self._mark_path_tols(pr, *DEFAULT_TOL)
@@ -1551,7 +1551,7 @@ class World:
             oc = self.impl(lambda: p.t2T(k, t))
             tw = outcome(lambda: T().t2T(k, t))
             self.compare(idx, q, oc, tw, tolerant, atol=1e-9 if tolerant else 0.0)
-            if oc[0] != "i":
+            if True:    # also after an interrupt: part of the work may have been done and cached
                 self._mark_path_tols(pr, *DEFAULT_TOL)
             warmed = True
         elif q == "ilength":
@@ -1563,7 +1563,7 @@ class World:
                 self.probe("inconclusive_boundary_query_on_rounding_tainted_path")
             else:
                 self.compare(idx, q, oc, tw, tolerant, rtol=1e-7, atol=1e-9)
-            if oc[0] != "i":
+            if True:    # also after an interrupt: part of the work may have been done and cached
                 self._mark_path_tols(pr, *DEFAULT_TOL)
             warmed = True
         elif q == "cropped":
@@ -1574,7 +1574,7 @@ class World:
                 self.probe("inconclusive_boundary_query_on_rounding_tainted_path")
             else:
                 self.compare(idx, q, oc, tw, tolerant, rtol=1e-7, atol=self._scale_atol(pr) if tolerant else 0.0)
-            if oc[0] != "i":
+            if True:    # also after an interrupt: part of the work may have been done and cached
                 self._mark_path_tols(pr, *DEFAULT_TOL)
             warmed = True
         elif q in ("start", "end"):
@@ -1599,7 +1599,7 @@ class World:
                 self.probe("inconclusive_boundary_query_on_rounding_tainted_path")
             else:
                 self.compare(idx, "point", oc, tw, tolerant, rtol=1e-7, atol=1e-9 if tolerant else 0.0, what=q)
-            if oc[0] != "i":
+            if True:    # also after an interrupt: part of the work may have been done and cached
                 # (marking is a superset: any query that may have asked segments for their default
                 #  length makes the default-tolerance value a legitimate cached answer later)
                 self._mark_path_tols(pr, *DEFAULT_TOL)
@@ -1612,7 +1612,7 @@ class World:
                 self.probe("inconclusive_boundary_query_on_rounding_tainted_path")
             else:
                 self.compare(idx, "point", oc, tw, tolerant, rtol=1e-6, atol=1e-9 if tolerant else 0.0, what=q)
-            if oc[0] != "i":
+            if True:    # also after an interrupt: part of the work may have been done and cached
                 self._mark_path_tols(pr, *DEFAULT_TOL)
                 warmed = Tv not in (0, 1)
         elif q in ("closed", "isclosedac"):
@@ -1644,7 +1644,7 @@ class World:
                 self.probe("inconclusive_boundary_query_on_rounding_tainted_path")
             else:
                 self.compare(idx, "point", oc, tw, False)
-            if oc[0] != "i":
+            if True:    # also after an interrupt: part of the work may have been done and cached
                 self._mark_path_tols(pr, *DEFAULT_TOL)
         elif q == "area":
             if has_arc:
@@ -1678,7 +1678,7 @@ class World:
                 self.probe("inconclusive_boundary_query_on_rounding_tainted_path")
             else:
                 self.compare(idx, "intersect", oc, tw, False)
-            if oc[0] != "i":
+            if True:    # also after an interrupt: part of the work may have been done and cached
                 self._mark_path_tols(pr, *DEFAULT_TOL)
                 self._mark_path_tols(other, *DEFAULT_TOL)
         elif q == "iscontinuous":
